@@ -65,6 +65,14 @@ func (r faultReaderAt) ReadAt(p []byte, off int64) (int, error) {
 			n, _ := r.inner.ReadAt(p[:len(p)-1], off)
 			return n, io.ErrUnexpectedEOF
 		}
+		// the reader ends early (the file was truncated after Parse saw it): a short count with io.EOF
+		if r.fc.kind == "short-eof" && len(p) > 1 {
+			n, _ := r.inner.ReadAt(p[:len(p)-1], off)
+			return n, io.EOF
+		}
+		if r.fc.kind == "eof0" {
+			return 0, io.EOF
+		}
 		return 0, errInjected
 	}
 	return r.inner.ReadAt(p, off)
@@ -275,6 +283,10 @@ func c15Eval(c *Ctx, cs Case) {
 		kinds = []string{"error", "short1", "short0"}
 	} else if dep == "reader" {
 		kinds = []string{"error", "short"}
+		if op != "parse-image" {
+			// after Parse the sizes are known: a reader that ends early is a failure, not a shorter file
+			kinds = append(kinds, "short-eof", "eof0")
+		}
 	}
 	for k := 0; k < n; k++ {
 		if _, has := cs["only_k"]; has && k != only {
@@ -414,14 +426,17 @@ func c15Gen(c *Ctx) {
 			}
 			c15Eval(c, Case{"op": "faults", "operation": od[0], "dep": od[1], "img": hx(img)})
 		}
-		c15Eval(c, Case{"op": "faults", "operation": "verify-image", "dep": "reader", "img": hx(signed)})
+		// an image that already carries a signature: Parse also reads the certificate table
+		for _, od := range [][2]string{{"parse-image", "reader"}, {"hash-image", "reader"}, {"sign-image", "reader"}, {"verify-image", "reader"}} {
+			c15Eval(c, Case{"op": "faults", "operation": od[0], "dep": od[1], "img": hx(signed)})
+		}
 	}
 }
 
 func init() {
 	register("C15", &PropDef{
-		Rule:   "operations {sign blob, sign variable, write variable, signed update, read variable, parse / hash / sign / verify image} x the dependency they use (crypto.Signer, afero.Fs/afero.File, io.ReaderAt): the calls of the fault-free run are counted and then EVERY call position k is failed in turn (exhaustive per input) with each fault kind (error; for the filesystem also a write/read count of n-1 and of 0; for the reader also a short count with io.ErrUnexpectedEOF), in a worker process. Checked: the result is an error (no digest for Hash), never success or a wrong value; a failed signing leaves Bytes() and Signatures() unchanged; a failed signer writes nothing. Every (operation, input, k, kind) is non-trivial and distinct.",
-		Assume: []string{"a short count counts as a fault only on the call that moves data (Write / Read)", "an early io.EOF from the caller's reader is indistinguishable from a shorter file and is not injected"},
+		Rule:   "operations {sign blob, sign variable, write variable, signed update, read variable, parse / hash / sign / verify image} x the dependency they use (crypto.Signer, afero.Fs/afero.File, io.ReaderAt): the calls of the fault-free run are counted and then EVERY call position k is failed in turn (exhaustive per input) with each fault kind (error; for the filesystem also a write/read count of n-1 and of 0; for the reader also a short count with io.ErrUnexpectedEOF and, once Parse has fixed the sizes, a short count with io.EOF and an empty read with io.EOF), on unsigned and on already signed images, in a worker process. Checked: the result is an error (no digest for Hash), never success or a wrong value; a failed signing leaves Bytes() and Signatures() unchanged; a failed signer writes nothing. Every (operation, input, k, kind) is non-trivial and distinct.",
+		Assume: []string{"a short count counts as a fault only on the call that moves data (Write / Read)", "during Parse an early io.EOF from the caller's reader is indistinguishable from a shorter file and is not injected there"},
 		Eval:   c15Eval, Gen: c15Gen,
 	})
 }
